@@ -1,5 +1,6 @@
 import SaphyrModel.Sc.Scan3
 import SaphyrModel.Proofs.SingleQuoted
+import SaphyrModel.Proofs.PlainLine
 /-! # C04 — Plain and quoted scalar text (function-level theorems)
 
 The escape table of the double-quoted scanner against the table of YAML 1.2.2 §5.7, for every
@@ -82,6 +83,42 @@ example :
         { mkSc .str 0 ['\'','i','t','\'','\'','s',' ',' ','"','a','"','\t',':','\'','\n','x'] with indent := 2, mark := ⟨3, 1, 3⟩ } with
      | .ok (tok, u') => decide (tok.ty = .scalar .singleQuoted ['i','t','\'','s',' ',' ','"','a','"','\t',':']) &&
          tok.span.start.col == 3 && tok.span.stop.col == 17 && decide (u'.inp.iter = ['\n','x'])
+     | _ => false) = true := by decide +kernel
+
+open SaphyrModel.C04P SaphyrModel.C05T in
+/-- **Plain scalars on one line are passed through unchanged — for every such line.** Block context, the scalar
+    in the value position (after `key: ` or `- `, not at the start of its line): the text is any sequence of
+    words of ordinary characters — anything but blanks, breaks, NUL, `:` and `#`; so quotes, brackets, commas,
+    `-`, `?`, `!`, `&`, `*`, `%`, `@`, backslashes and non-ASCII text are all passed through — separated by runs of
+    blanks, not ending with a blank, not less indented than its parent allows; then the input ends, or a line
+    feed follows and the next line starts in column 0. Whatever the chunk size (`bufmaxlen ≥ 2`) and however
+    many chunks a word takes, the scanner either runs out of the fuel it was given or returns a plain scalar token
+    with exactly that text (interior blanks kept), starting where the scanner stood and ending right after the
+    last character of the text. -/
+theorem plain_scalar_line_token (v rest : Str) (hv : PlainLine v) (u : Sc) (hk : u.inp.kind = .str)
+    (hfl : u.flowLevel = 0) (hlw : u.leadingWhitespace = false) (hcap : 2 ≤ u.inp.cap)
+    (hrest : Ending rest u.indent) (hC : u.indent + 1 ≤ (u.mark.col : Int))
+    (hi : u.inp.iter = v ++ rest) :
+    (∃ p, scanPlainScalarBody u = .panic p) ∨
+    ∃ tok u', scanPlainScalarBody u = .ok (tok, u') ∧
+      tok.ty = .scalar .plain v ∧ tok.span.start = u.mark ∧
+      tok.span.stop.line = u.mark.line ∧ tok.span.stop.col = u.mark.col + v.length ∧
+      tok.span.stop.index = u.mark.index + v.length ∧ u'.inp.iter = rest.drop 1 := by
+  rcases plain_line_token u.inp.cap hcap v rest hv u u.mark.line u.mark.col u.indent (u.mark.index + u.inp.iter.length)
+      hrest hC ⟨⟨hk, hi, rfl, rfl, rfl, by rw [hi]⟩, hfl, hlw, rfl⟩ with h | ⟨tok, u', hok, h1, h2, h3, h4, h5, h6, _, _⟩
+  · exact Or.inl h
+  · refine Or.inr ⟨tok, u', hok, h1, h2, h3, h4, ?_, h6⟩
+    rw [hi] at h5
+    simp only [List.length_append] at h5
+    omega
+
+
+/-- non-vacuity: after `a: ` (column 3, parent indentation 0), `it's  "x,[` and a line feed, next line `b`;
+    chunk size 4, so the words are read in several chunks -/
+example :
+    (match scanPlainScalarBody { mkSc .str 4 ['i','t','\'','s',' ',' ','"','x',',','[','\n','b'] with indent := 0, mark := ⟨3, 1, 3⟩, leadingWhitespace := false } with
+     | .ok (tok, u') => decide (tok.ty = TokenType.scalar ScalarStyle.plain ['i','t','\'','s',' ',' ','"','x',',','[']) &&
+         tok.span.start.col == 3 && tok.span.stop.col == 13 && decide (u'.inp.iter = ['b'])
      | _ => false) = true := by decide +kernel
 
 end SaphyrModel.C04
